@@ -165,6 +165,9 @@ func (g *G) Value(t reflect.Type, depth int) reflect.Value {
 	return v
 }
 
+// Fill fills an addressable value in place.
+func (g *G) Fill(v reflect.Value, depth int) { g.fill(v, depth) }
+
 func (g *G) fill(v reflect.Value, depth int) {
 	t := v.Type()
 	switch t.Kind() {
